@@ -45,11 +45,16 @@ class Env:
         base = os.path.join(BUILD, "work")
         os.makedirs(base, exist_ok=True)
         # one directory per invocation (two concurrent checks of one property must not wipe
-        # each other's files); stale ones older than a day are swept
+        # each other's files); directories whose owning process is gone are swept (a killed
+        # check cannot run its own clean-up, and such leftovers reach gigabytes)
         for d in os.listdir(base):
             pth = os.path.join(base, d)
             try:
-                if d.startswith(prop + ".") and time.time() - os.path.getmtime(pth) > 86400:
+                pid = d.rsplit(".", 1)[1] if "." in d else ""
+                if pid.isdigit():
+                    if not os.path.exists("/proc/%s" % pid):
+                        shutil.rmtree(pth, ignore_errors=True)
+                elif time.time() - os.path.getmtime(pth) > 3600:
                     shutil.rmtree(pth, ignore_errors=True)
             except OSError:
                 pass
